@@ -7,6 +7,12 @@
 (*   Op(o, k)    mirrors one positioning call of singleLevelIterator /        *)
 (*               twoLevelIterator (reader_iter_single_lvl.go, _two_lvl.go),   *)
 (*               issued only inside the documented caller contract            *)
+(*   SetBounds(lo, hi)  mirrors singleLevelIterator.SetBounds on the same     *)
+(*               iterator (reuse: pebble.Iterator.SetBounds, levelIter moving *)
+(*               to bounds of the next scan).  Generator configs pick its     *)
+(*               shape first: the window moves forward (lo' >= hi: the code's *)
+(*               boundsCmp > 0 path that keeps the loaded block), backward    *)
+(*               (hi' <= lo: boundsCmp < 0), or anywhere                      *)
 (* Used three ways: exhaustive check of the model's own properties            *)
 (* (InternalIterGen.cfg), seeded-bug self tests (Bug_*.cfg), and generation   *)
 (* of scripts for the Go driver (simulation; hist printed as JSON).           *)
@@ -42,9 +48,27 @@ Finish(lo, hi) ==
   /\ UNCHANGED <<L, last, nops, target>>
 
 RelEnabled == \E o \in RelOps : Enabled(it, o, 0)
+(* re-bounding is offered once the iterator has been positioned under its bounds *)
 Pick == /\ phase = "pick" /\ nops < MaxOps
-        /\ phase' \in {"abs"} \cup (IF RelEnabled THEN {"rel"} ELSE {})
+        /\ phase' \in {"abs"} \cup (IF RelEnabled THEN {"rel"} ELSE {}) \cup (IF it.st # "unpos" THEN {"sb"} ELSE {})
         /\ UNCHANGED <<L, it, hist, last, nops, target>>
+PickSB == /\ phase = "sb"
+          /\ phase' \in {"sba"} \cup (IF it.hi < R THEN {"sbf"} ELSE {}) \cup (IF it.lo > 0 THEN {"sbb"} ELSE {})
+          /\ UNCHANGED <<L, it, hist, last, nops, target>>
+
+SetBounds(lo, hi) ==
+  /\ \/ phase = "iter"
+     \/ phase = "sba"
+     \/ phase = "sbf" /\ lo >= it.hi
+     \/ phase = "sbb" /\ hi <= it.lo
+  /\ nops < MaxOps
+  /\ SetBOK(lo, hi)
+  /\ it' = SetB(it, lo, hi)
+  /\ last' = NoLast
+  /\ hist' = Append(hist, [op |-> "setb", h |-> 1, lo |-> lo, hi |-> hi])
+  /\ nops' = nops + 1
+  /\ phase' = (IF phase = "iter" THEN "iter" ELSE "pick")
+  /\ UNCHANGED <<L, target>>
 
 Op(o, k, f) ==
   /\ \/ phase = "iter"
@@ -65,7 +89,8 @@ Op(o, k, f) ==
 
 Next == \/ \E k \in UKeys, s \in 1..Seqs, kd \in Kinds : Add(k, s, kd)
         \/ \E lo \in 0..(R - 1), hi \in 1..R : Finish(lo, hi)
-        \/ Pick
+        \/ Pick \/ PickSB
+        \/ \E lo \in 0..(R - 1), hi \in 1..R : SetBounds(lo, hi)
         \/ \E o \in {"first", "last", "next", "prev", "nextprefix"} : Op(o, 0, FALSE)
         \/ \E o \in KeyOps, k \in 0..R, f \in BOOLEAN : Op(o, k, f)
 Spec == Init /\ [][Next]_vars
